@@ -3,7 +3,7 @@ import PasslibVerif.Model.Totp
 Model of `TOTP.normalize_time` (passlib/totp.py) and of the CPython code it runs for date-times:
 
     if isinstance(time, int):   return time
-    if isinstance(time, float): return int(time)
+    if isinstance(time, float): return math.floor(time)     # commit 2bc064c; before it: int(time), truncation toward zero
     if time is None:            return int(cls.now())
     if hasattr(time, "utctimetuple"):
         return calendar.timegm(time.utctimetuple())
@@ -271,9 +271,17 @@ instance : (f : PyFloat) → Decidable f.WF
   | .nan => isTrue trivial
   | .inf _ => isTrue trivial
 
-/-- `int(x)` for a float: truncation toward zero; ValueError for NaN, OverflowError for an infinity -/
+/-- `int(x)` for a float: truncation toward zero; ValueError for NaN, OverflowError for an infinity
+    (still what the `None` branch applies to the clock: `int(cls.now())`) -/
 def floatToInt : PyFloat → TRes Int
   | .finite num den => .ok (Int.tdiv num den)
+  | .nan => .error .valueError
+  | .inf _ => .error .overflowError
+
+/-- `math.floor(x)` for a float: toward −∞ (`den > 0`, so `Int`'s `/` is the floor); ValueError for NaN,
+    OverflowError for an infinity -/
+def floatFloor : PyFloat → TRes Int
+  | .finite num den => .ok (num / den)
   | .nan => .error .valueError
   | .inf _ => .error .overflowError
 
@@ -289,7 +297,7 @@ inductive TimeArg
 /-- `TOTP.normalize_time(time)`; `now` is what `cls.now()` returns (an int is the ratio n/1) -/
 def normalizeTime (now : PyFloat) : TimeArg → TRes Int
   | .int n => .ok n
-  | .float f => floatToInt f
+  | .float f => floatFloor f
   | .none => floatToInt now
   | .datetime dt =>
     match utcTimeTuple dt with
